@@ -6,7 +6,7 @@ PROPS_VO = "Props/C16.vo"
 EXTRA_VO = ["Model/C16Oracle.vo"]      # the oracle is extracted but is not a dependency of Props/C16.vo
 PROFILES = ["release", "debug"]     # debug = overflow checks on: usize under/overflow panics instead of wrapping
 RULE = ("harness c16: straight-line CKKS programs generated *while being executed* through the public traits on Module<FFT64Ref> "
-        "and Module<NTT120Ref> (plus FFT64Avx / NTT120Avx when the harness manifest enables `ckks-avx`); n = 128/256; base2k 19/16 resp. 52/45; "
+        "Module<NTT120Ref>, Module<FFT64Avx>, Module<NTT120Avx>; n = 128/256; base2k 19/16 resp. 52/45; "
         "6 registers of unequal limb counts, fresh encryptions of unequal (log_delta, log_budget), 67 op codes (add/sub ct, vec znx/rnx, "
         "const znx/rnx; neg; mul/square/mul-add/mul-sub with ct, vectors, constants; x/: 2^k; rotate with present/missing keys; conjugate; "
         "rescale; align; compaction, reallocation, set_meta_checked; decrypt; add_many, mul_many and the five dot products over register "
@@ -17,7 +17,7 @@ RULE = ("harness c16: straight-line CKKS programs generated *while being execute
         "evaluation; floor(max slot error * 2^log_delta) per step against the explicit worst-case envelope of Model/C16Oracle.v; "
         "encode->decode identity of the f64 encoder for 2..4096 slots (<= 2 log2(n) + 4 ulps)")
 ASSUMPTIONS = [
-    "state of /repo: after the CKKS repairs fd924ce, 3326e5c, e31e2c8, 84cafa8, b042dad, 628058f (the model is faithful to the repaired code)",
+    "state of /repo: after the CKKS repairs fd924ce, 3326e5c, e31e2c8, 84cafa8, b042dad, 628058f, 18a4236, 1a5cef0, 45bddf7 (the model is faithful to the repaired code)",
     "theorem hypotheses: base2k >= 1; operands satisfy `good` (log_delta + log_budget <= limbs * base2k < 2^62); caller scalars are arbitrary "
     "usize values, plaintext metadata below 2^62 (`wf_op`)",
     "admissible calls (asserted by the layers below, not defects): ckks_encrypt_sk with 1 <= noise k and ceil(k/base2k) <= limbs of the "
@@ -28,94 +28,21 @@ ASSUMPTIONS = [
     "quantised ones (what the plaintext digits really encode, constants wrapped at their encoding precision)",
     "representable magnitude: |coefficient| < 2^(log_budget-1) (1 - 2^-(base2k-2)); balanced base-2^b digits decode the top sliver "
     "[2^(lb-1)(1-2^-b), 2^(lb-1)) as negative values (observed; not counted as a finding)",
-    "composites: proved: every Ok leaves metadata the destination can hold (C16_composite_meta_never_exceeds); their Err/panic conditions are "
-    "checked by the correspondence only",
-    "not exercised: f128 plaintexts (f128 is only a dev-dependency of poulpy-ckks); the AVX backends until /verif/harness/Cargo.toml has "
-    "avx = [\"poulpy-cpu-avx/enable-avx\", \"poulpy-ckks/enable-avx\", \"ckks-avx\"] and ckks-avx = [] (tested on a scratch copy: 1213 "
-    "programs, 0 differences); user-built CKKSPlaintextCstZnx (only to_znx / to_znx_at_k outputs); operands that violate the invariant "
+    "composites: proved: every Ok and every Err leaves metadata the destination can hold (C16_composite_meta_never_exceeds, "
+    "C16_composite_fail_keeps_invariant); their exact Err conditions are checked by the correspondence only (no closed-form spec)",
+    "not exercised: f128 plaintexts (f128 is only a dev-dependency of poulpy-ckks); user-built CKKSPlaintextCstZnx (only to_znx / to_znx_at_k outputs); operands that violate the invariant "
     "beyond the one-call quarantine",
 ]
 TRUSTED = ["shadow complex evaluation and decrypt/decode path of harness/src/bin/c16.rs (f64)"]
-
-PRODUCT_CT = {32: ("a", "b"), 33: ("d", "a"), 34: ("a",), 35: ("d",), 36: ("a",), 37: ("d",), 38: ("a",), 39: ("d",),
-              44: ("a", "b"), 45: ("a",), 46: ("a",), 49: ("a", "b"), 50: ("a",), 51: ("a",)}
-
 
 def _hex(x):
     return -int(x[1:], 16) if x.startswith("-") else int(x, 16)
 
 
-def _unpack(n, packed):
-    return [(packed >> (3 * i)) & 7 for i in range(max(0, min(n, 5)))]
-
-
 def classify(record):
-    """Known classes still present in /repo:
-    C16:mul.noncompact_operand_panics        a product (ct x ct, square, ct x vector plaintext, mul-add/-sub, mul_many, dot products)
-                                             panics when a ciphertext operand has more limbs than ceil(effective_k / base2k);
-    C16:dot_product_ct.mixed_meta_wrong_scale  the fused path of ckks_dot_product_ct places the products with max(effective_k) instead of
-                                             max(log_budget) + max(log_delta) (same defect as the repaired ct x ct product);
-    C16:many.single_input_stale_meta         ckks_add_many / ckks_mul_many with ONE input assign dst.meta before the budget check: a failed
-                                             call leaves metadata the destination cannot hold, later calls on it succeed or panic.
-    A key is returned only when every offending row (panic, or metadata beyond limbs * base2k) is explained."""
-    try:
-        code, ps, vs, outs = record.split("#")
-        if int(code) not in (16001, 16002) or outs.startswith("PANIC"):
-            return None
-        B = _hex(ps.split()[2])
-        steps = [[_hex(x) for x in s.split()] for s in vs.split(";")]
-        rows = [[_hex(x) for x in r.split()] for r in outs.split(";")]
-    except Exception:
-        return None
-    reg = {}              # register -> (log_delta, log_budget, limbs) as last reported
-    stale = set()         # registers left with stale metadata by a single-input add_many / mul_many
-    keys = []
-
-    def noncompact(r):
-        m = reg.get(r)
-        return bool(m) and m[0] + m[1] > 0 and -(-(m[0] + m[1]) // B) != m[2]
-
-    for s, r in zip(steps, rows):
-        op, d, a, b = s[0], s[1], s[2], s[3]
-        st = r[0]
-        lists = []
-        if 70 <= op <= 76:
-            lists = _unpack(s[4], s[5]) + (_unpack(s[4], s[6]) if op == 72 else [])
-        used = set(lists) | ({a} if op in (67,) else set()) | {d}
-        if st == 99:
-            if used & stale:
-                keys.append("C16:many.single_input_stale_meta")
-            elif op in PRODUCT_CT and any(noncompact({"d": d, "a": a, "b": b}[nm]) for nm in PRODUCT_CT[op]):
-                keys.append("C16:mul.noncompact_operand_panics")
-            elif op in (71, 72, 73, 74) and any(noncompact(x) for x in lists):
-                keys.append("C16:mul.noncompact_operand_panics")
-            else:
-                return None
-            break
-        exceeds = r[1] + r[2] > r[3] * B or r[1] < 0 or r[2] < 0
-        if exceeds:
-            if st == 2 and op in (70, 71) and s[4] == 1:
-                stale.add(d)
-                keys.append("C16:many.single_input_stale_meta")
-            elif d in stale:
-                pass                          # a later call on the stale destination
-            else:
-                return None
-        else:
-            stale.discard(d)
-        if st == 0 and op == 72 and s[4] >= 2:
-            xs, ys = _unpack(s[4], s[5]), _unpack(s[4], s[6])
-            mx, my = [reg.get(x) for x in xs], [reg.get(y) for y in ys]
-            if all(mx) and all(my) and len({m[0] for m in mx}) == 1 and len({m[0] for m in my}) == 1:
-                amin, bmin = min(m[1] for m in mx), min(m[1] for m in my)
-                if (mx[0][0] - my[0][0]) * (amin - bmin) < 0:
-                    keys.append("C16:dot_product_ct.mixed_meta_wrong_scale")
-        reg[d] = (r[1], r[2], r[3])
-        if op == 64 and len(r) >= 7:
-            if r[4] + r[5] > r[6] * B and b not in stale:
-                return None
-            reg[b] = (r[4], r[5], r[6])
-    return keys[0] if keys else None
+    """No known-finding class is left for C16: all nine classes found so far were repaired in /repo
+    (fd924ce, 3326e5c, e31e2c8, 84cafa8, b042dad, 628058f, 18a4236, 1a5cef0, 45bddf7).  Every oracle failure is a violation."""
+    return None
 
 
 def extra(ctx, ofails, notes):
